@@ -83,7 +83,7 @@ def filtered(eng, st, n, maskfn, elemfn, numpy=False, etype=None):
     n = z3.simplify(n)
     filter_axioms(eng, ma, n)
     c = CNT(ma, n)
-    return st.alloc(HSeq(c, lambda j: elemfn(IDX(ma, n, j)), numpy=numpy, etype=etype, note=("filter", ma, n)))
+    return st.alloc(HSeq(c, lambda j: elemfn(IDX(ma, n, j)), numpy=numpy, etype=etype, note=("filter", ma, n, HSeq(n, elemfn))))
 
 
 def sum_axioms(eng, arr, n, fn=SUMR):
@@ -166,6 +166,14 @@ def m_len(eng, st, args, kwargs, node):
             return VInt(o.len)
         if isinstance(o, HDict) and o.keys is not None:
             return VInt(st.heap[o.keys.addr].len)
+        if isinstance(o, HDict) and getattr(o, "source", None) is not None:
+            src = o.source
+            if src.note and src.note[0] == "filter" and len(src.note) >= 4:
+                _, ma, n, base = src.note
+                la = label_base_array(eng, st, base)
+                ndist_axioms(eng, la, ma, n)
+                return VInt(NDIST(la, ma, n))
+            raise Unsupported("len(set(...)) of an unfiltered list")
     if isinstance(v, VMaybeNone):
         eng.oblige(st, "len() argument is not None", z3.Not(v.isnone), "safety", node)
         return m_len(eng, st, [v.val], kwargs, node)
@@ -680,6 +688,85 @@ def m_barrier(eng, st, args, kwargs, node):
     return VNone()
 
 
+# ----- label (abstract string) methods -----------------------------------------------------------
+ISINT = z3.Function("str.isint", Label, z3.BoolSort())        # s.lstrip("-").isdigit()
+INTOF = z3.Function("int_of", Label, z3.IntSort())            # int(s) for such s
+ISPARAM = z3.Function("str.isparam", Label, z3.BoolSort())     # s.startswith('a') and s[1:].isdigit()
+
+
+def m_lstrip(eng, st, recv, args, kwargs, node):
+    if isinstance(recv, VLabel) and args and isinstance(args[0], VStr) and args[0].s == "-":
+        return VConc("lstrip-", (recv,))
+    if isinstance(recv, VStr):
+        return VStr(recv.s.lstrip(args[0].s if args else None))
+    raise Unsupported("lstrip on %r" % (recv,))
+
+
+def m_isdigit(eng, st, recv, args, kwargs, node):
+    if isinstance(recv, VConc) and recv.name == "lstrip-":
+        return VBool(ISINT(recv.obj[0].t))
+    if isinstance(recv, VStr):
+        return VBool(recv.s.isdigit())
+    raise Unsupported("isdigit on %r" % (recv,))
+
+
+NDIST = z3.Function("NDIST", z3.ArraySort(z3.IntSort(), Label), BoolArr, z3.IntSort(), z3.IntSort())
+
+
+def label_base_array(eng, st, o):
+    k = z3.Int("k!lb")
+    g = o.get
+    return named_array(eng, z3.Lambda([k], g(k).t), "L")
+
+
+def ndist_axioms(eng, la, ma, n):
+    key = ("ndist", la.get_id(), ma.get_id(), n.get_id())
+    if key in eng._axiom_keys:
+        return
+    eng._axiom_keys.add(key)
+    d = NDIST(la, ma, n)
+    c = CNT(ma, n)
+    eng.axioms.append(z3.And(d >= 0, d <= c, z3.Implies(c >= 1, d >= 1)))
+
+
+def m_store_mask(eng, st, base, idx, v, node):
+    """a[mask] = scalar  (mask: bool array of the same length)"""
+    o = st.heap[base.addr]
+    mo = st.heap[idx.addr]
+    e0 = mo.get(z3.Int("k!probe"))
+    if not isinstance(e0, VBool):
+        raise Unsupported("store with an index array (line %d)" % node.lineno)
+    if isinstance(v, VRef):
+        raise Unsupported("a[mask] = array (line %d)" % node.lineno)
+    eng.oblige(st, "mask has the length of the array", mo.len == o.len, "safety", node)
+    g, mg = o.get, mo.get
+    probe = g(z3.Int("k!probe"))
+    if isinstance(probe, VFloat):
+        v = as_float(v)
+    st.heap[base.addr] = HSeq(o.len, lambda k: ite(mg(k).t, v, g(k)), numpy=True, etype=o.etype)
+    return None
+
+
+def m_fancy_index(eng, st, base, idx, node):
+    o = st.heap[base.addr]
+    io = st.heap[idx.addr]
+    e0 = io.get(z3.Int("k!probe"))
+    g = o.get
+    if isinstance(e0, VBool):
+        eng.oblige(st, "mask has the length of the array", io.len == o.len, "safety", node)
+        ig = io.get
+        return filtered(eng, st, o.len, lambda k: ig(k).t, g, numpy=True, etype=o.etype)
+    if isinstance(e0, VInt):
+        ig, n = io.get, io.len
+        k = z3.Int(fresh_name("k!fi"))
+        s2 = st.fork()
+        s2.pc = list(st.pc) + [0 <= k, k < n]
+        eng.oblige(s2, "index array entries in range", z3.And(ig(k).t >= -o.len, ig(k).t < o.len), "safety", node)
+        olen = o.len
+        return st.alloc(HSeq(n, lambda j: g(z3.If(ig(j).t < 0, ig(j).t + olen, ig(j).t)), numpy=True, etype=o.etype))
+    raise Unsupported("fancy index with %r" % (e0,))
+
+
 def install(eng):
     eng._axiom_keys = set()
     eng._named = {}
@@ -724,6 +811,8 @@ def install(eng):
     M["np.abs"] = unary_float(fabs)
     M["np.square"] = unary_float(fsquare)
     M["math.log"] = unary_float(flog)
+    M["store_mask"] = m_store_mask
+    M["fancy_index"] = m_fancy_index
     M["str%"] = m_str_mod
     M["fstring"] = m_fstring
     M["listcomp"] = m_listcomp
@@ -736,7 +825,7 @@ def install(eng):
     M["sys.setrecursionlimit"] = m_noop
     M["comm.Barrier"] = m_barrier
     eng.methods.update({"append": m_append, "copy": m_copy, "cumsum": m_cumsum, "astype": m_astype,
-                        "keys": m_dict_keys, "readlines": m_readlines})
+                        "keys": m_dict_keys, "readlines": m_readlines, "lstrip": m_lstrip, "isdigit": m_isdigit})
     eng.module_consts.update({
         "np.nan": VFloat(0, nan=True), "np.inf": VFloat(0, inf=True, pos=True),
         "np.pi": VFloat(z3.Real("pi")), "np.intp": VConc("np.intp"),
